@@ -427,6 +427,11 @@ def recovery(run, rng, thorough, seed):
         s, ic = SL[i % len(SL)], IC[(i // 2) % len(IC)]
         mm, rho = (props["molar_mass"], props["liquid_density"]) if props else (Fraction(1), Fraction(1))
         scen_iso.append(dict(base, k="gen", m="asiso", s=renc(s), i=renc(ic), mm=renc(mm), rho=renc(rho), ps=[renc(x) for x in refgrid]))
+        # a Langmuir reference (its Langmuir area is a generating quantity) and a different sample s * alpha + i
+        kk = KS[i % 3]
+        scen_iso.append({"k": "gen", "m": "lang", "nm": renc(nm), "kk": renc(kk), "sigma": renc(sg), "ps": [renc(x) for x in refgrid]})
+        scen_iso.append({"k": "gen", "m": "asisoL", "kk": renc(kk), "sigma": renc(sg), "pr": renc(p04), "s": renc(s), "i": renc(ic), "mm": renc(mm), "rho": renc(rho),
+                         "ps": [renc(x) for x in refgrid]})
     allgens = tlc.oracle("LinearisedOracle", scen + scen_as + scen_iso, timeout=600, chunk=700)
     gens, gens_as, gens_iso = allgens[:len(scen)], allgens[len(scen):len(scen) + len(scen_as)], allgens[len(scen) + len(scen_as):]
     for q, a in zip(scen, gens):
@@ -526,7 +531,8 @@ def recovery(run, rng, thorough, seed):
         q0 = {k: v for k, v in q.items() if k not in ("ps", "k")}
         adsname, props = ADS[frac(q["sigma"])]
         temp = 100.0 if props else 77.355
-        if q["m"] == "self":
+        if q["m"] in ("self", "lang"):
+            # the reference: an exact BET isotherm, or an exact Langmuir isotherm
             nref = numpy.array([float(prod(f) * 1000) for f in a["points"]])                  # mmol/g
             ref = point_isotherm(pr, nref, adsorbate=adsname, temperature=temp, loading_unit="mmol")
             sample, cfg = ref, "against itself"
@@ -534,21 +540,27 @@ def recovery(run, rng, thorough, seed):
         else:
             ic = frac(q["i"])
             n = numpy.array([float(prod(f) + ic) for f in a["points"]])
-            sample, cfg = point_isotherm(pr, n, adsorbate=adsname, temperature=temp, loading_unit="mmol"), "against a BET reference"
+            sample = point_isotherm(pr, n, adsorbate=adsname, temperature=temp, loading_unit="mmol")
+            cfg = "against a BET reference" if q["m"] == "asiso" else "against a Langmuir reference"
             scales = {"intercept": float(n.max()), "adsorbed_volume": float(n.max())}
-        for lim in ((0.0, 1e9), (0.3, 1.5)):
+        modes = ("BET", None) if q["m"] in ("self", "asiso") else ("langmuir",)
+        for mode, lim in itertools.product(modes, ((0.0, 1e9), (0.3, 1.5))):
+            mcfg = cfg + (", reference_area=" + repr(mode) if mode != "BET" else "")
             try:
-                d = alpha_s(sample, ref, reference_area="BET", reducing_pressure=0.4, t_limits=lim)
+                d = alpha_s(sample, ref, reference_area=mode, reducing_pressure=0.4, t_limits=lim)
             except Exception as e:  # noqa: BLE001
-                run.violation({"site": "alpha_s", "part": "recovery", "config": cfg, "wrong": "exception:" + exc_class(e)}, {"query": q0, "message": str(e)[:200]})
+                run.violation({"site": "alpha_s", "part": "recovery", "config": mcfg, "wrong": "exception:" + exc_class(e)}, {"query": q0, "message": str(e)[:200]})
                 continue
             if not d["results"]:
                 rec.not_judged += 1
             for r in d["results"]:
-                obs = dict(slope=r["slope"], intercept=r["intercept"], area=r["area"])
-                if props or q["m"] == "self":
-                    obs["adsorbed_volume"] = r["adsorbed_volume"]
-                rec.add("alpha_s", cfg, q0, obs, scales)
+                if q["m"] == "lang":
+                    obs = dict(area=r["area"])      # against itself the area is the reference's Langmuir area
+                else:
+                    obs = dict(slope=r["slope"], intercept=r["intercept"], area=r["area"])
+                    if props or q["m"] == "self":
+                        obs["adsorbed_volume"] = r["adsorbed_volume"]
+                rec.add("alpha_s", mcfg, q0, obs, scales)
         if q["m"] == "asiso":
             # the same sample with the reference area given as a number: area = A_ref / n_ref(0.4) * s
             c = q["c"]
